@@ -68,12 +68,12 @@ theorem validateSignature_spec (env : Env) (tok : Token) (args : List Expr)
   rename_i f hf hlen hall
   exact built_call hf (by simpa using hlen) (by simpa using hall) h
 
-theorem parseLiteral_spec (env : Env) (h : Handler) : Post (parseLiteral h) (Good env) := by
+theorem parseLiteral_spec (env : Env) (h : Handler) : Post (parseLiteral h) (GoodPx env) := by
   unfold parseLiteral
   pnorm
   psteps
   all_goals
-    simp [Good, GoodE, BuiltS, Spec.wtComparable, Spec.intsExpr, Json.isScalar]
+    simp [GoodPx, GoodE, BuiltS, Spec.wtComparable, Spec.intsExpr, Json.isScalar]
 
 theorem parseSlice_spec (env : Env) : Post (parseSlice env) (SelOK env) := by
   unfold parseSlice
@@ -105,17 +105,17 @@ structure Inv (env : Env) (fuel : Nat) : Prop where
   selectors : Post (parseSelectors env fuel) (SelsOK env)
   bracketed : ∀ op acc, SelsOK env acc → Post (parseBracketed env op fuel acc) (SelsOK env)
   filterSel : Post (parseFilterSelector env fuel) (SelOK env)
-  byHandler : ∀ h, Post (parseByHandler env h fuel) (Good env)
-  filterExpr : ∀ prec, Post (parseFilterExpr env prec fuel) (Good env)
-  loop : ∀ prec left, Good env left → Post (filterExprLoop env prec fuel left) (Good env)
-  infx : ∀ left, Good env left → Post (parseInfix env left fuel) (Good env)
-  prefx : Post (parsePrefix env fuel) (Good env)
-  grouped : Post (parseGrouped env fuel) (Good env)
-  gloop : ∀ x, Good env x → Post (groupedLoop env fuel x) (Good env)
-  function : Post (parseFunction env fuel) (Good env)
+  byHandler : ∀ h, Post (parseByHandler env h fuel) (GoodPx env)
+  filterExpr : ∀ prec, Post (parseFilterExpr env prec fuel) (GoodPx env)
+  loop : ∀ prec left, GoodPx env left → Post (filterExprLoop env prec fuel left) (GoodPx env)
+  infx : ∀ left, GoodPx env left → Post (parseInfix env left fuel) (GoodPx env)
+  prefx : Post (parsePrefix env fuel) (GoodPx env)
+  grouped : Post (parseGrouped env fuel) (GoodPx env)
+  gloop : ∀ x, GoodPx env x → Post (groupedLoop env fuel x) (GoodPx env)
+  function : Post (parseFunction env fuel) (GoodPx env)
   fargs : ∀ args parens, ArgsOK env args →
     Post (functionArgs env fuel args parens) (fun r => ArgsOK env r.1)
-  argInfix : ∀ x, Good env x → Post (functionArgInfix env fuel x) (Good env)
+  argInfix : ∀ x, GoodPx env x → Post (functionArgInfix env fuel x) (GoodPx env)
 
 /-- call a sub-parser with a known specification, naming its result and the fact -/
 syntax "pcall " term " with " ident ident : tactic
